@@ -1,13 +1,14 @@
 #!/usr/bin/env python3
-"""Runs every demonstration the round-6 bug hunters delivered (hunt/Hxx/*.py) against /repo's current tree and prints its exit
+"""Runs every demonstration the round-6 bug hunters delivered (hunt/Hxx/*.py; `hunt_status.py hunt2` for the second hunt) against /repo's current tree and prints its exit
 status next to the recorded disposition (hunt/TRIAGE.json). A demo of a repaired defect must exit 0 now."""
 import json, os, subprocess, sys
 HERE = os.path.dirname(os.path.dirname(os.path.abspath(__file__)))
-tri = json.load(open(os.path.join(HERE, "hunt", "TRIAGE.json")))
+HUNT = sys.argv[1] if len(sys.argv) > 1 else "hunt"
+tri = json.load(open(os.path.join(HERE, HUNT, "TRIAGE.json")))
 bad = 0
 for key in sorted(tri):
     d, f = key.split("/")
-    p = subprocess.run(["/venv/bin/python", "-B", f], cwd=os.path.join(HERE, "hunt", d), capture_output=True, text=True, timeout=900,
+    p = subprocess.run(["/venv/bin/python", "-B", f], cwd=os.path.join(HERE, HUNT, d), capture_output=True, text=True, timeout=900,
                        env=dict(os.environ, PYTHONPATH=os.environ.get("VERIF_REPO", "/repo")))
     disp = tri[key]["disposition"]
     expect0 = disp.startswith("fixed")
